@@ -203,20 +203,86 @@ Definition label_class (i:label_in) : bool :=
   | _ => true
   end.
 
+(* ---------- partial ids, end to end ---------- *)
+Definition partial_in := (graph * bool * list (str * N) * list str * list N)%type.   (* history, purge, _revision_map keys, targets as typed, rows *)
+Definition Partial_holds (i:partial_in) (o:e2e_out) : Prop :=
+  let '(G, purge, keys, targets, H) := i in
+  match resolve_partials keys targets with
+  | Ok ts => E2E_holds (G, purge, map (fun x => [x]) ts, Some ts, H) o     (* the statement for the revisions the prefixes denote *)
+  | Err _ => True                                                           (* no / ambiguous match: nothing is claimed *)
+  end.
+Definition check_partial (i:partial_in) (o:e2e_out) : bool :=
+  let '(G, purge, keys, targets, H) := i in
+  match resolve_partials keys targets with
+  | Ok ts => check_e2e (G, purge, map (fun x => [x]) ts, Some ts, H) o
+  | Err _ => true
+  end.
+Definition model_partial (i:partial_in) : e2e_out :=
+  let '(G, purge, keys, targets, H) := i in stamp_partial G purge keys targets H.
+Definition corr_partial (i:partial_in) (o:e2e_out) : bool :=
+  (let '(G, _, _, _, _) := i in ndeps_okb G) &&
+  match model_partial i, o with
+  | Ok a, Ok b => permb a b
+  | Err e, Err e' => herr_eqb5 e e'
+  | _, _ => false
+  end.
+
+(* ---------- several databases in one run ---------- *)
+Definition multi_in := (graph * bool * list (list N) * option (list N) * list (list N))%type.   (* ..., the rows of every database *)
+Definition multi_out := res (list (list N)).
+Fixpoint each_db (G:graph) (purge:bool) (groups:list (list N)) (dests:option (list N)) (dbs rs:list (list N)) : Prop :=
+  match dbs, rs with
+  | [], [] => True
+  | H :: dbs', r :: rs' => E2E_holds (G, purge, groups, dests, H) (Ok r) /\ each_db G purge groups dests dbs' rs'
+  | _, _ => False
+  end.
+Definition all_in_domain (G:graph) (purge:bool) (dests:option (list N)) (dbs:list (list N)) : bool :=
+  forallb (fun H => pre_C05 (G, false, e2e_target dests, e2e_start purge H)) dbs.
+(* every database ends as the single-database statement says for its own rows *)
+Definition Multi_holds (i:multi_in) (o:multi_out) : Prop :=
+  let '(G, purge, groups, dests, dbs) := i in
+  all_in_domain G purge dests dbs = true -> exists rs, o = Ok rs /\ each_db G purge groups dests dbs rs.
+Fixpoint each_dbb (G:graph) (purge:bool) (groups:list (list N)) (dests:option (list N)) (dbs rs:list (list N)) : bool :=
+  match dbs, rs with
+  | [], [] => true
+  | H :: dbs', r :: rs' => check_e2e (G, purge, groups, dests, H) (Ok r) && each_dbb G purge groups dests dbs' rs'
+  | _, _ => false
+  end.
+Definition check_multi (i:multi_in) (o:multi_out) : bool :=
+  let '(G, purge, groups, dests, dbs) := i in
+  if all_in_domain G purge dests dbs then
+    match o with Ok rs => each_dbb G purge groups dests dbs rs | Err _ => false end
+  else true.
+Definition model_multi (i:multi_in) : multi_out :=
+  let '(G, purge, groups, dests, dbs) := i in stamp_multi G purge groups dests dbs.
+Definition corr_multi (i:multi_in) (o:multi_out) : bool :=
+  (let '(G, _, _, _, _) := i in ndeps_okb G) &&
+  match model_multi i, o with
+  | Ok a, Ok b => list_eqb permb a b
+  | Err e, Err e' => herr_eqb5 e e'
+  | _, _ => false
+  end.
+
 (* what the engine evaluates: any kind of case *)
-Inductive c05_any := CStamp (i:c05_in) | CE2E (i:e2e_in) | CLabel (i:label_in).
-Inductive c05_anyout := OStamp (o:c05_out) | OE2E (o:e2e_out).
+Inductive c05_any := CStamp (i:c05_in) | CE2E (i:e2e_in) | CLabel (i:label_in) | CPartial (i:partial_in) | CMulti (i:multi_in).
+Inductive c05_anyout := OStamp (o:c05_out) | OE2E (o:e2e_out) | OMulti (o:multi_out).
 Definition C05_any_holds (i:c05_any) (o:c05_anyout) : Prop :=
   match i, o with
   | CStamp i, OStamp o => C05_holds i o | CE2E i, OE2E o => E2E_holds i o | CLabel i, OE2E o => Label_holds i o
+  | CPartial i, OE2E o => Partial_holds i o | CMulti i, OMulti o => Multi_holds i o
   | _, _ => False end.
 Definition check_C05_any (i:c05_any) (o:c05_anyout) : bool :=
   match i, o with
   | CStamp i, OStamp o => check_C05 i o | CE2E i, OE2E o => check_e2e i o | CLabel i, OE2E o => check_label i o
+  | CPartial i, OE2E o => check_partial i o | CMulti i, OMulti o => check_multi i o
   | _, _ => false end.
 Definition corr_C05_any (i:c05_any) (o:c05_anyout) : bool :=
   match i, o with
   | CStamp i, OStamp o => corr_C05 i o | CE2E i, OE2E o => corr_e2e i o | CLabel i, OE2E o => corr_label i o
+  | CPartial i, OE2E o => corr_partial i o | CMulti i, OMulti o => corr_multi i o
   | _, _ => false end.
 Definition model_C05_any (i:c05_any) : c05_anyout :=
-  match i with CStamp i => OStamp (model_C05 i) | CE2E i => OE2E (model_e2e i) | CLabel i => OE2E (model_label i) end.
+  match i with
+  | CStamp i => OStamp (model_C05 i) | CE2E i => OE2E (model_e2e i) | CLabel i => OE2E (model_label i)
+  | CPartial i => OE2E (model_partial i) | CMulti i => OMulti (model_multi i)
+  end.
